@@ -381,6 +381,7 @@ Qed.
 (* kind and pipe pairing are tracked for the descriptors created by the library (>= 1000) *)
 Record kstable (k k' : kernel) : Prop := {
   kt_ep : ep k' = ep k; kt_next : next_fd k <= next_fd k'; kt_flt : flt k' = flt k;
+  kt_nwait : nwait k' = nwait k;
   kt_get : forall fd v, k_get k fd = Some v ->
            exists v', k_get k' fd = Some v' /\ (vclosed v' = true -> vclosed v = true) /\
                       (1000 <= fd -> vkind v' = vkind v /\ vpeer v' = vpeer v /\ vpeer_open v' = vpeer_open v);
@@ -390,7 +391,7 @@ Lemma kstable_refl : forall k, kstable k k.
 Proof. intros. constructor; try reflexivity; try (cbn; lia); [intros fd v H; exists v; tauto|tauto]. Qed.
 Lemma kstable_trans : forall a b c, kstable a b -> kstable b c -> kstable a c.
 Proof.
-  intros a b c [A1 A2 A3 A4 A5] [B1 B2 B3 B4 B5]. constructor; try congruence.
+  intros a b c [A1 A2 A3 A6 A4 A5] [B1 B2 B3 B6 B4 B5]. constructor; try congruence.
   - lia.
   - intros fd v H. destruct (A4 fd v H) as (v1 & C1 & C2 & C3).
     destruct (B4 fd v1 C1) as (v2 & D1 & D2 & D3). exists v2. split; [assumption|]. split; [auto|].
@@ -434,8 +435,6 @@ Proof.
   - intros fd0 H. rewrite k_get_put. destruct (Z.eqb_spec fd0 fd) as [->|N]; [congruence|tauto].
 Qed.
 Lemma kstable_clock : forall k c, kstable k (k_set_clock k c).
-Proof. intros. constructor; try reflexivity; try (cbn; lia); [intros fd v H; exists v; tauto|tauto]. Qed.
-Lemma kstable_nwait : forall k n, kstable k (k_set_nwait k n).
 Proof. intros. constructor; try reflexivity; try (cbn; lia); [intros fd v H; exists v; tauto|tauto]. Qed.
 Lemma kstable_setep_same : forall k l, l = ep k -> kstable k (k_set_ep k l).
 Proof. intros k l ->. constructor; try reflexivity; try (cbn; lia); [intros fd v H; exists v; tauto|tauto]. Qed.
@@ -647,4 +646,88 @@ Proof.
         -- destruct OLD as (A & [(B&C&D)|(B&C&D&_)]); split; try assumption.
            ++ left. splits; try assumption. destruct D as [D|D]; [lia|right; assumption].
            ++ congruence.
+Qed.
+
+(* ---------- close ---------- *)
+Lemma k_get_set_ep : forall k l fd, k_get (k_set_ep k l) fd = k_get k fd.
+Proof. reflexivity. Qed.
+
+Lemma k_close_spec : forall k fd,
+  let k' := fst (k_close k fd) in
+  next_fd k' = next_fd k /\ flt k' = flt k /\ nwait k' = nwait k /\
+  (forall e, In e (ep k') <-> In e (ep k) /\ (k_open k fd <> None -> en_fd e <> fd)) /\
+  (NoDup (map en_fd (ep k)) -> NoDup (map en_fd (ep k'))) /\
+  (forall x, x <> fd -> (forall v, k_open k fd = Some v -> x <> vpeer v) -> k_get k' x = k_get k x) /\
+  (forall x v, k_get k x = Some v -> exists v', k_get k' x = Some v' /\ vkind v' = vkind v /\ vpeer v' = vpeer v /\
+                                     (x <> fd -> vclosed v' = vclosed v)) /\
+  (forall x, k_get k x = None -> k_get k' x = None) /\
+  (k_open k fd <> None -> k_open k' fd = None).
+Proof.
+  intros k fd. unfold k_close. destruct (k_open k fd) as [v|] eqn:O.
+  2:{ cbn [fst]. repeat split; try tauto; try congruence.
+      intros x v H. exists v. tauto. }
+  apply k_open_get in O. destruct O as [G C].
+  set (k1 := k_put k fd (with_closed v true)).
+  set (k2 := if (vkind v =? K_PIPE_R) || (vkind v =? K_PIPE_W)
+             then match k_get k1 (vpeer v) with
+                  | Some p => k_put k1 (vpeer v) (with_peer p (vpeer p) false)
+                  | None => k1
+                  end
+             else k1).
+  cbn [fst].
+  assert (E2 : ep k2 = ep k).
+  { subst k2 k1. destruct ((vkind v =? K_PIPE_R) || (vkind v =? K_PIPE_W)); [|reflexivity].
+    destruct (k_get (k_put k fd (with_closed v true)) (vpeer v)); reflexivity. }
+  assert (F2 : next_fd k2 = next_fd k /\ flt k2 = flt k /\ nwait k2 = nwait k).
+  { subst k2 k1. destruct ((vkind v =? K_PIPE_R) || (vkind v =? K_PIPE_W)); [|repeat split].
+    destruct (k_get (k_put k fd (with_closed v true)) (vpeer v)); repeat split. }
+  assert (G2 : forall x, k_get k2 x =
+                 if (vkind v =? K_PIPE_R) || (vkind v =? K_PIPE_W) then
+                   match k_get k1 (vpeer v) with
+                   | Some p => if x =? vpeer v then Some (with_peer p (vpeer p) false) else k_get k1 x
+                   | None => k_get k1 x
+                   end
+                 else k_get k1 x).
+  { intros x. subst k2. destruct ((vkind v =? K_PIPE_R) || (vkind v =? K_PIPE_W)); [|reflexivity].
+    destruct (k_get k1 (vpeer v)); [apply k_get_put|reflexivity]. }
+  assert (G1 : forall x, k_get k1 x = if x =? fd then Some (with_closed v true) else k_get k x).
+  { intros x. subst k1. apply k_get_put. }
+  destruct F2 as (F2a & F2b & F2c).
+  split; [exact F2a|]. split; [exact F2b|]. split; [exact F2c|].
+  split; [|split; [|split; [|split; [|split]]]].
+  - intros e. cbn [ep k_set_ep]. rewrite E2, In_ep_rem. split; intros [A B]; (split; [assumption|]).
+    + intros _. assumption.
+    + apply B. congruence.
+  - intros ND. cbn [ep k_set_ep]. rewrite E2. apply NoDup_fd_rem. assumption.
+  - intros x N P. rewrite k_get_set_ep, G2.
+    assert (x <> vpeer v) by (apply P; reflexivity).
+    assert (Q : k_get k1 x = k_get k x) by (rewrite G1; destruct (Z.eqb_spec x fd); [contradiction|reflexivity]).
+    destruct ((vkind v =? K_PIPE_R) || (vkind v =? K_PIPE_W)); [|exact Q].
+    destruct (k_get k1 (vpeer v)); [|exact Q]. destruct (Z.eqb_spec x (vpeer v)); [contradiction|exact Q].
+  - intros x w H. rewrite k_get_set_ep, G2.
+    assert (Q : exists w', k_get k1 x = Some w' /\ vkind w' = vkind w /\ vpeer w' = vpeer w /\ (x <> fd -> w' = w)).
+    { rewrite G1. destruct (Z.eqb_spec x fd) as [->|N].
+      - rewrite G in H. injection H as <-. eexists. split; [reflexivity|]. repeat split. contradiction.
+      - exists w. tauto. }
+    destruct Q as (w' & Q1 & Q2 & Q3 & Q4).
+    destruct ((vkind v =? K_PIPE_R) || (vkind v =? K_PIPE_W)).
+    + destruct (k_get k1 (vpeer v)) as [p|] eqn:GP.
+      * destruct (Z.eqb_spec x (vpeer v)) as [->|N].
+        -- rewrite Q1 in GP. injection GP as <-. eexists. split; [reflexivity|]. cbn.
+           repeat split; try assumption. intros N. rewrite (Q4 N). reflexivity.
+        -- exists w'. repeat split; try assumption. intros N'. rewrite (Q4 N'). reflexivity.
+      * exists w'. repeat split; try assumption. intros N'. rewrite (Q4 N'). reflexivity.
+    + exists w'. repeat split; try assumption. intros N'. rewrite (Q4 N'). reflexivity.
+  - intros x H. rewrite k_get_set_ep, G2.
+    assert (Q : k_get k1 x = None).
+    { rewrite G1. destruct (Z.eqb_spec x fd) as [->|N]; [congruence|assumption]. }
+    destruct ((vkind v =? K_PIPE_R) || (vkind v =? K_PIPE_W)); [|exact Q].
+    destruct (k_get k1 (vpeer v)) as [p|] eqn:GP; [|exact Q].
+    destruct (Z.eqb_spec x (vpeer v)) as [->|N]; [congruence|exact Q].
+  - intros _. unfold k_open. rewrite k_get_set_ep, G2.
+    assert (Q : k_get k1 fd = Some (with_closed v true)) by (rewrite G1, Z.eqb_refl; reflexivity).
+    destruct ((vkind v =? K_PIPE_R) || (vkind v =? K_PIPE_W)); [|rewrite Q; reflexivity].
+    destruct (k_get k1 (vpeer v)) as [p|] eqn:GP; [|rewrite Q; reflexivity].
+    destruct (Z.eqb_spec fd (vpeer v)) as [E|N]; [|rewrite Q; reflexivity].
+    rewrite <- E in GP. rewrite Q in GP. injection GP as <-. reflexivity.
 Qed.
